@@ -304,12 +304,16 @@ def twin_specs(pid, tier, seed):
     elif pid == "C13":
         for i in range(reps * 4): T.append(("c13_%d" % i, twins.twin_c13(seed * 1000 + i, 300 + 200 * (i % 5), 1500 if q else 6000), "u", "u"))
         for k in range(64): T.append(("c13edge_%d" % k, twins.twin_c13_edge(k), "u", "u"))
+        for j in range(12):
+            for ext in (0, 1): T.append(("c13re_%d_%d" % (j, ext), twins.twin_reentrant_clear(j, ext, seed * 100 + j), "u", "u"))
     elif pid == "C14":
         for i in range(reps): T.append(("c14_%d" % i, twins.twin_c14(seed * 1000 + i, 5000 if q else 40000), "u", "u"))
     elif pid == "C15":
         for i in range(reps): T.append(("c15_%d" % i, twins.twin_c15(seed * 1000 + i, 6000 if q else 40000), "u", "u"))
     elif pid == "C09":
         for i in range(reps): T.append(("c09_%d" % i, twins.twin_c09(seed * 1000 + i, 5000 if q else 40000), "u", "u"))
+        # "since the last reset" also when the reset is made from inside a callback (extended check on)
+        for j in range(12): T.append(("c09re_%d" % j, twins.twin_reentrant_clear(j, 1, seed * 100 + j), "u", "u"))
     return T
 
 # ------------------------------------------------------------------------------------------
@@ -598,6 +602,22 @@ def finish(ctx):
         "OK" if rc == 0 else "VIOLATION", time.time() - ctx.t0, ctx.cov["evaluations"]))
     return rc
 
+def c18_segment_check(ctx):
+    pid = ctx.pid
+    # pure lookups: no byte of the library's writable segment changes while every lookup runs over its whole domain
+    try:
+        segx = infra.build_binary("u", "extractseg")
+        rr = subprocess.run([segx], stdout=subprocess.PIPE, stderr=subprocess.PIPE, text=True, timeout=120)
+        mseg = re.search(r"SEG segments=(\d+) bytes=(\d+) changed=(\d+)", rr.stdout)
+        ctx.cov["lookup_segment_check"] = mseg.group(0) if mseg else "no SEG line (exit %d)" % rr.returncode
+        if mseg and int(mseg.group(1)) > 0 and int(mseg.group(3)) > 0:
+            diffs = [l for l in rr.stdout.splitlines() if l.startswith("SEGDIFF")]
+            path = runner.write_replay(pid, "lookup-segment", ["property=C18 kind=runtime: the lookup functions wrote to the library's writable data segment (a cache or scratch buffer behind a function that must return constant strings): " + "; ".join(diffs[:4]),
+                                                                "replay: build the library as a shared object and run harness/extract.c with -DSEGCHECK (tools/infra.py kind 'extractseg')"], [])
+            ctx.add_violation(path, "lookup functions modify static state (%s bytes)" % mseg.group(3))
+    except (infra.BuildError, subprocess.TimeoutExpired) as e:
+        ctx.notes.append("lookup segment check not run: " + str(e)[:200])
+
 def run_property(pid, tier, seed):
     ctx = Ctx(pid, tier, seed)
     os.makedirs(ctx.workdir, exist_ok=True)
@@ -619,19 +639,7 @@ def run_property(pid, tier, seed):
                 path = runner.write_replay(pid, "nibble", ["property=C11 kind=table (T1, complete sweep of all 65 536 PI values x 256 ECC): the country depends on more than the PI country nibble"], ["new", "p %d 4096 %d 0 0 0 0 0" % (pi, e)])
                 ctx.add_violation(path, "country depends on PI bits outside the nibble")
             if pid == "C18":
-                # pure lookups: no byte of the library's writable segment changes while every lookup runs over its whole domain
-                try:
-                    segx = infra.build_binary("u", "extractseg")
-                    rr = subprocess.run([segx], stdout=subprocess.PIPE, stderr=subprocess.PIPE, text=True, timeout=120)
-                    mseg = re.search(r"SEG segments=(\d+) bytes=(\d+) changed=(\d+)", rr.stdout)
-                    ctx.cov["lookup_segment_check"] = mseg.group(0) if mseg else "no SEG line (exit %d)" % rr.returncode
-                    if mseg and int(mseg.group(1)) > 0 and int(mseg.group(3)) > 0:
-                        diffs = [l for l in rr.stdout.splitlines() if l.startswith("SEGDIFF")]
-                        path = runner.write_replay(pid, "lookup-segment", ["property=C18 kind=runtime: the lookup functions wrote to the library's writable data segment (a cache or scratch buffer behind a function that must return constant strings): " + "; ".join(diffs[:4]),
-                                                                            "replay: build the library as a shared object and run harness/extract.c with -DSEGCHECK (tools/infra.py kind 'extractseg')"], [])
-                        ctx.add_violation(path, "lookup functions modify static state (%s bytes)" % mseg.group(3))
-                except (infra.BuildError, subprocess.TimeoutExpired) as e:
-                    ctx.notes.append("lookup segment check not run: " + str(e)[:200])
+                c18_segment_check(ctx)
                 uns = du.get("unstable", []) + dn.get("unstable", [])
                 ctx.cov["kept_pointers_rechecked"] = 256 * 8 * 2
                 FN = {"PTYNAME": "rdsparser_pty_lookup_name", "PTYSHORT": "rdsparser_pty_lookup_short", "PTYLONG": "rdsparser_pty_lookup_long", "CNAME": "rdsparser_country_lookup_name", "CISO": "rdsparser_country_lookup_iso"}
@@ -639,6 +647,14 @@ def run_property(pid, tier, seed):
                     call = "%s(%d%s)" % (FN[tag], arg, (", true" if rbds else ", false") if tag.startswith("PTY") else "")
                     path = runner.write_replay(pid, "unstable-%s-%d" % (tag, arg & 255), ["property=C18 kind=runtime (T1 extractor, every lookup over its whole domain): the string returned by %s is not constant: it read %r when returned and %r through the same pointer after the remaining lookups had been made (%d of 4096 kept pointers changed)" % (call, first.decode("latin-1"), later.decode("latin-1"), len(uns)), "lookup %s ; keep the pointer ; call the same function for every other argument ; read the pointer again" % call], [])
                     ctx.add_violation(path, "lookup result is not a constant string: " + call)
+                hist = du.get("history", []) + dn.get("history", [])
+                ctx.cov["lookup_history_pairs"] = {k[12:]: v for k, v in du.get("note", {}).items() if k.startswith("historyPairs")}
+                for tag, ax, rx, ay, ry, nth, got, exp in hist[:3]:
+                    isp = tag.startswith("PTY")
+                    c1 = "%s(%d%s)" % (FN[tag], ax, (", true" if rx else ", false") if isp else "")
+                    c2 = "%s(%d%s)" % (FN[tag], ay, (", true" if ry else ", false") if isp else "")
+                    path = runner.write_replay(pid, "history-%s-%d-%d" % (tag, ax & 255, ay & 255), ["property=C18 kind=runtime (T1 extractor, every ordered pair of arguments): the answer of a lookup depends on the call before it: after %s, call number %d of %s returned %r; asked on its own it returns %r" % (c1, nth, c2, got.decode("latin-1"), exp.decode("latin-1")), "%s ; %s ; %s" % (c1, c2, c2)], [])
+                    ctx.add_violation(path, "lookup result depends on the previous call: " + c2)
             ctx.cov["ecc_nibble_only_sweep"] = du["const"].get("eccNibbleOnlyViolations", "not run in this tier")
         except infra.BuildError as e:
             msg = str(e)
@@ -658,6 +674,12 @@ def run_property(pid, tier, seed):
                         ctx.add_violation(p2, "sanitizer abort in stream " + name)
                         break
                 return finish(ctx)
+            if pid == "C18":
+                # one build configuration no longer compiles: the look-ups of the default build can still be run over their
+                # whole domains for a concrete input before the broken tie is reported
+                c18_segment_check(ctx)
+                if ctx.violations:
+                    return finish(ctx)
             path = runner.write_replay(pid, "build", ["kind=build/extraction step failed; the tie between model and source cannot be established", msg[:3000].replace("\n", " | ")], [])
             ctx.add_violation(path, "build/extraction failed", nofail=True)
             return finish(ctx)
